@@ -22,6 +22,9 @@ Ltac astepA_cases p E :=
          end;
   inversion E; subst; clear E.
 
+Lemma astepA_anchors : forall sh a p a' sh1 r evs, astepA sh a p = (a', sh1, r, evs) -> anchors sh1 = anchors sh.
+Proof. intros sh a p a' sh1 r evs E. astepA_cases p E; reflexivity. Qed.
+
 Lemma ksame_eq : forall a b, ksame a b = true -> a = b.
 Proof.
   intros [a1 a2] [b1 b2] H. unfold ksame in H. cbn [fst snd] in H.
@@ -93,7 +96,7 @@ Proof.
   - destruct (astep sh g p) as [[sh1 r] evs1] eqn:EA.
     destruct (nthN g (anchors sh)) as [a0|] eqn:Ha0.
     + right. destruct (astep_anchors _ _ _ _ _ _ _ Ha0 EA) as (a1 & sh2 & EA2 & An & _).
-      exists g, p, a0, a1, sh2, r, evs1. cbn [tpc]. split; [left; reflexivity|]. split; [reflexivity|]. split; [assumption|].
+      exists g, p, a0, a1, sh2, r, evs1. cbn [tpc]. split; [left; reflexivity|]. split; [exact Ha0|]. split; [assumption|].
       destruct r; inversion E; subst; (split; [assumption|]); intros sid H; try assumption;
         apply in_app_or in H; destruct H as [H|H]; try assumption;
         try (destruct c; cbn [In] in H); cbn [In] in H; try contradiction; destruct H as [H|H]; try discriminate; contradiction.
@@ -102,7 +105,7 @@ Proof.
   - destruct (astep sh g p) as [[sh1 r] evs1] eqn:EA.
     destruct (nthN g (anchors sh)) as [a0|] eqn:Ha0.
     + right. destruct (astep_anchors _ _ _ _ _ _ _ Ha0 EA) as (a1 & sh2 & EA2 & An & _).
-      exists g, p, a0, a1, sh2, r, evs1. cbn [tpc]. split; [right; reflexivity|]. split; [reflexivity|]. split; [assumption|].
+      exists g, p, a0, a1, sh2, r, evs1. cbn [tpc]. split; [right; reflexivity|]. split; [exact Ha0|]. split; [assumption|].
       destruct r; inversion E; subst; (split; [assumption|]); intros sid H; try assumption;
         apply in_app_or in H; destruct H as [H|H]; try assumption;
         try (destruct c; cbn [In] in H); cbn [In] in H; try contradiction; destruct H as [H|H]; try discriminate; contradiction.
@@ -147,4 +150,263 @@ Proof.
     destruct th as [m pc0 c s]. cbn [tpc] in TP. destruct TP as [-> | ->].
     + left. rewrite pri_prim. exact AL.
     + right. rewrite tra_tran. exact AL.
+Qed.
+
+(* ---------- readers: the key of an open entry ---------- *)
+Definition rdctx (c : fcx) : bool := match c with FcCrf => true | _ => false end.
+(* pcs of the operations a reader may call on its entry (chain walk, closeForReading, closeForReadingAndFreeIdle) *)
+Definition rdclass (p : apc) : bool :=
+  match p with
+  | LK0 | LK1 | LK2 _ _ | LK3 _ _ | LK4 _ _ _ | CR1 | CF1 | CF2 | CF3 => true
+  | AL LcCR _ | AL LcCF _ => true
+  | AL (LcFcUX c) _ => rdctx c
+  | FC0 c | FC1 c _ | FL1 c _ _ | FL2 c _ _ _ | FL3 c _ _ _ | RW1 c | RW2 c | RW3 c | RW4 c | RW5 c | RW6 c | CT c => rdctx c
+  | _ => false
+  end.
+
+Lemma rdclass_next : forall sh a p a' sh1 p' evs,
+  astepA sh a p = (a', sh1, ANext p', evs) -> rdclass p = true -> rdclass p' = true.
+Proof.
+  intros sh a p a' sh1 p' evs E R.
+  destruct p; cbn [rdclass] in R; try discriminate R;
+    try match goal with c : lcx |- _ => destruct c; cbn [rdclass] in R; try discriminate R end;
+    try match goal with c : fcx |- _ => destruct c; cbn [rdctx] in R; try discriminate R end;
+    cbn [astepA] in E;
+    repeat match type of E with
+           | context [pstep ?x ?y ?z] => destruct (pstep x y z) as [[[? ?] ?] ?] eqn:?
+           | context [match ?x with Ready _ => _ | _ => _ end] => destruct x eqn:?
+           end;
+    unfold lcont, fc_entry, fl_head, lk_head, callL in E; cbn [keep] in E;
+    repeat match type of E with
+           | context [match ?m with MIdle => _ | _ => _ end] => destruct m
+           | context [if ?c then _ else _] => destruct c eqn:?
+           | context [match getS ?a ?b with _ => _ end] => destruct (getS a b) eqn:?
+           | context [match sidx ?a ?b with _ => _ end] => destruct (sidx a b) eqn:?
+           end;
+    inversion E; subst; reflexivity.
+Qed.
+
+(* a reader-class step that arrives at a pc holding the shared lock started from one, and does not touch the key *)
+Lemma rdclass_shared : forall sh a p a' sh1 p' evs,
+  astepA sh a p = (a', sh1, ANext p', evs) -> rdclass p = true -> alock p' = Ready MShared ->
+  alock p = Ready MShared /\ akey a' = akey a.
+Proof.
+  intros sh a p a' sh1 p' evs E R S.
+  destruct p; cbn [rdclass] in R; try discriminate R;
+    try match goal with c : lcx |- _ => destruct c; cbn [rdclass] in R; try discriminate R end;
+    try match goal with c : fcx |- _ => destruct c; cbn [rdctx] in R; try discriminate R end;
+    cbn [astepA] in E;
+    repeat match type of E with
+           | context [pstep ?x ?y ?z] => destruct (pstep x y z) as [[[? ?] ?] ?] eqn:?
+           | context [match ?x with Ready _ => _ | _ => _ end] => destruct x eqn:?
+           end;
+    unfold lcont, fc_entry, fl_head, lk_head, callL in E; cbn [keep] in E;
+    repeat match type of E with
+           | context [match ?m with MIdle => _ | _ => _ end] => destruct m
+           | context [if ?c then _ else _] => destruct c eqn:?
+           | context [match getS ?a ?b with _ => _ end] => destruct (getS a b) eqn:?
+           | context [match sidx ?a ?b with _ => _ end] => destruct (sidx a b) eqn:?
+           end;
+    inversion E; subst; cbn [alock amode entry is_append keep] in S; try discriminate S;
+    split; reflexivity.
+Qed.
+
+(* an operation ends with "opened for reading under k" only in openForReadingAt, after sameKey(k) *)
+Lemma astepA_opened : forall sh a p a' sh1 m k evs,
+  astepA sh a p = (a', sh1, ADone m (OOpenR (Some k)), evs) -> a' = a /\ akey a = k.
+Proof.
+  intros sh a p a' sh1 m k evs E.
+  destruct p; cbn [astepA] in E;
+    repeat match type of E with
+           | context [pstep ?x ?y ?z] => destruct (pstep x y z) as [[[? ?] ?] ?] eqn:?
+           | context [match ?x with Ready _ => _ | _ => _ end] => destruct x eqn:?
+           end;
+    try match goal with c : lcx |- _ => destruct c end;
+    unfold lcont, fc_entry, fl_head, lk_head, callL in E; cbn [keep] in E;
+    repeat match type of E with
+           | context [match ?m with MIdle => _ | _ => _ end] => destruct m
+           | context [if ?c then _ else _] => destruct c eqn:?
+           | context [match getS ?a ?b with _ => _ end] => destruct (getS a b) eqn:?
+           | context [match sidx ?a ?b with _ => _ end] => destruct (sidx a b) eqn:?
+           | context [match ?c with Some _ => _ | None => _ end] => destruct c eqn:?
+           | context [match ?c with FcOW _ => _ | _ => _ end] => destruct c eqn:?
+           end;
+    inversion E; subst.
+  split; [reflexivity|]. apply ksame_eq. assumption.
+Qed.
+
+(* a chain walk ends where it started: holding the shared lock, key untouched *)
+Lemma astepA_looked : forall sh a p a' sh1 m l w evs,
+  astepA sh a p = (a', sh1, ADone m (OLook l w), evs) -> a' = a /\ alock p = Ready MShared.
+Proof.
+  intros sh a p a' sh1 m l w evs E.
+  destruct p; cbn [astepA] in E;
+    repeat match type of E with
+           | context [pstep ?x ?y ?z] => destruct (pstep x y z) as [[[? ?] ?] ?] eqn:?
+           | context [match ?x with Ready _ => _ | _ => _ end] => destruct x eqn:?
+           end;
+    try match goal with c : lcx |- _ => destruct c end;
+    unfold lcont, fc_entry, fl_head, lk_head, callL in E; cbn [keep] in E;
+    repeat match type of E with
+           | context [match ?m with MIdle => _ | _ => _ end] => destruct m
+           | context [if ?c then _ else _] => destruct c eqn:?
+           | context [match getS ?a ?b with _ => _ end] => destruct (getS a b) eqn:?
+           | context [match sidx ?a ?b with _ => _ end] => destruct (sidx a b) eqn:?
+           | context [match ?c with Some _ => _ | None => _ end] => destruct c eqn:?
+           | context [match ?c with FcOW _ => _ | _ => _ end] => destruct c eqn:?
+           end;
+    inversion E; subst; split; reflexivity.
+Qed.
+
+(* between two lock calls an activity is at a pc of the form Ready m *)
+Lemma astepA_next_holds : forall sh a p a' sh1 p' evs x,
+  astepA sh a p = (a', sh1, ANext p', evs) -> holds (alock p') = Some x -> alock p' = Ready x.
+Proof.
+  intros sh a p a' sh1 p' evs x E H.
+  destruct p; cbn [astepA] in E;
+    repeat match type of E with
+           | context [pstep ?x ?y ?z] => destruct (pstep x y z) as [[[? ?] ?] ?] eqn:?
+           | context [match ?x with Ready _ => _ | _ => _ end] => destruct x eqn:?
+           end;
+    try match goal with c : lcx |- _ => destruct c end;
+    unfold lcont, fc_entry, fl_head, lk_head, callL in E; cbn [keep] in E;
+    repeat match type of E with
+           | context [match ?m with MIdle => _ | _ => _ end] => destruct m
+           | context [if ?c then _ else _] => destruct c eqn:?
+           | context [match getS ?a ?b with _ => _ end] => destruct (getS a b) eqn:?
+           | context [match sidx ?a ?b with _ => _ end] => destruct (sidx a b) eqn:?
+           | context [match ?c with Some _ => _ | None => _ end] => destruct c eqn:?
+           | context [match ?c with FcOW _ => _ | _ => _ end] => destruct c eqn:?
+           end;
+    inversion E; subst; cbn [alock amode entry holds keep wmode_of is_append] in *; try discriminate H;
+    inversion H; subst; reflexivity.
+Qed.
+
+(* well-formedness of a reading client: it only runs reader operations, on its own entry *)
+Definition wf1 (th : mthread) : Prop :=
+  match cm th with
+  | CRead g _ =>
+      match tpc th with
+      | Prim f p => f = g /\ rdclass p = true
+      | StuckP f _ => f = g
+      | KeyW _ | KeyR _ => False
+      | _ => True
+      end
+  | _ => True
+  end.
+
+Definition isReader (th : mthread) (f : N) (k : key) : Prop := cm th = CRead f k /\ holdsP f th = Some MShared.
+
+Lemma newcm_read : forall old g lm o f k,
+  newcm old g lm o = CRead f k ->
+  g = f /\ lm = MShared /\ (o = OOpenR (Some k) \/ (exists l w, o = OLook l w) /\ old = CRead f k).
+Proof.
+  intros old g lm o f k H. destruct lm; cbn [newcm] in H; try discriminate H.
+  destruct o as [| |[k0|]| | |l w]; try discriminate H.
+  - inversion H; subst. repeat split. left. reflexivity.
+  - destruct old; try discriminate H. destruct (N.eqb_spec f0 g); [|discriminate H].
+    inversion H; subst. repeat split. right. split; [exists l, w; reflexivity | reflexivity].
+Qed.
+
+Lemma tstep_wf1 : forall sh th sh' th' evs, wf1 th -> tstep sh th = (sh', th', evs) -> wf1 th'.
+Proof.
+  intros sh [m p c s] sh' th' evs W E. unfold tstep in E. cbn [cm tpc cur scr] in E. unfold wf1 in *. cbn [cm tpc] in W.
+  destruct p as [ | | |f0 m0|g0 m0|k|k|k|g p|g p].
+  - destruct (fetchk m s) as [[o r]|] eqn:F.
+    + destruct (start_op sh m o) as [[sh1 p1] evs1] eqn:S. inversion E; subst; clear E. cbn [cm tpc].
+      destruct (fetchk_legal _ _ _ _ F) as [Lg _].
+      destruct m; try exact I.
+      destruct o; try discriminate Lg; cbn [start_op cm_anchor] in S;
+        repeat match type of S with context [if ?x then _ else _] => destruct x end;
+        inversion S; subst; try exact I; split; reflexivity.
+    + inversion E; subst. cbn [cm tpc]. destruct m; exact I.
+  - inversion E; subst. exact W.
+  - inversion E; subst. exact W.
+  - inversion E; subst. exact W.
+  - inversion E; subst. exact W.
+  - destruct m; try (destruct (fileno_of sh k); inversion E; subst; exact I). contradiction.
+  - destruct m; try (destruct (fileno_of sh k); inversion E; subst; exact I). contradiction.
+  - destruct (fileno_of sh k); inversion E; subst; cbn [cm tpc]; destruct m; exact I.
+  - destruct (astep sh g p) as [[sh1 r] evs1] eqn:EA.
+    destruct r as [p'|lm o| |lm]; inversion E; subst; clear E; cbn [cm tpc].
+    + destruct m; try exact I. destruct W as [-> R]. split; [reflexivity|].
+      unfold astep in EA. destruct (nthN f (anchors sh)) as [a0|]; [|inversion EA].
+      destruct (astepA sh a0 p) as [[[a1 sh2] r1] evs2] eqn:EA2. inversion EA; subst.
+      eapply rdclass_next; eassumption.
+    + destruct (newcm m g lm o); exact I.
+    + destruct m; exact I.
+    + destruct m; try exact I. destruct W as [-> _]. reflexivity.
+  - destruct (astep sh g p) as [[sh1 r] evs1] eqn:EA.
+    destruct r as [p'|lm o| |lm]; inversion E; subst; clear E; cbn [cm tpc]; destruct m; try exact I;
+      destruct lm; exact I.
+Qed.
+
+(* a process that is a reader after its own step either was one before (and its own step left the key alone
+   unless it was made by its exclusive transient activity), or has just passed sameKey() *)
+Lemma tstep_reader : forall sh th sh' th' evs f k a a',
+  wf1 th -> tstep sh th = (sh', th', evs) ->
+  isReader th' f k -> nthN f (anchors sh) = Some a -> nthN f (anchors sh') = Some a' ->
+  isReader th f k \/ akey a' = k.
+Proof.
+  intros sh [m p c s] sh' th' evs f k a a' W E [C H] Ha Ha'.
+  unfold tstep in E. cbn [cm tpc cur scr] in E. unfold wf1 in W. cbn [cm tpc] in W. unfold isReader, holdsP in *.
+  destruct p as [ | | |f0 m0|g0 m0|k0|k0|k0|g p|g p].
+  - left. destruct (fetchk m s) as [[o r]|] eqn:F.
+    + destruct (start_op sh m o) as [[sh1 p1] evs1] eqn:S. inversion E; subst; clear E. cbn [cm tpc] in *. subst m.
+      split; [reflexivity|]. cbn [pri tpc cm cm_lmode]. rewrite N.eqb_refl. reflexivity.
+    + inversion E; subst; clear E. cbn [cm] in C. subst m. split; [reflexivity|].
+      cbn [pri tpc cm cm_lmode]. rewrite N.eqb_refl. reflexivity.
+  - left. inversion E; subst. split; assumption.
+  - left. inversion E; subst. split; assumption.
+  - left. inversion E; subst. split; assumption.
+  - left. inversion E; subst. split; assumption.
+  - exfalso. destruct (fileno_of sh k0); inversion E; subst; cbn [cm] in C; subst m; exact W.
+  - exfalso. destruct (fileno_of sh k0); inversion E; subst; cbn [cm] in C; subst m; exact W.
+  - left. destruct (fileno_of sh k0); inversion E; subst; cbn [cm] in C; subst m; (split; [reflexivity|]);
+      cbn [pri tpc cm cm_lmode]; rewrite N.eqb_refl; reflexivity.
+  - destruct (astep sh g p) as [[sh1 r] evs1] eqn:EA.
+    unfold astep in EA. destruct (nthN g (anchors sh)) as [a0|] eqn:Ha0.
+    + destruct (astepA sh a0 p) as [[[a1 sh2] r1] evs2] eqn:EA2. inversion EA; subst; clear EA.
+      destruct r as [p'|lm o| |lm]; inversion E; subst; clear E; cbn [cm tpc] in *.
+      * (* still inside the operation *)
+        subst m. destruct W as [-> R]. rewrite pri_prim in H.
+        pose proof (astepA_next_holds _ _ _ _ _ _ _ _ EA2 H) as S.
+        destruct (rdclass_shared _ _ _ _ _ _ _ EA2 R S) as [S0 _].
+        left. split; [reflexivity|]. rewrite pri_prim. rewrite S0. reflexivity.
+      * (* the operation returned *)
+        destruct (newcm_read _ _ _ _ _ _ C) as (-> & -> & [->|[(l & w & ->) ->]]).
+        -- right. destruct (astepA_opened _ _ _ _ _ _ _ _ EA2) as [-> K].
+           cbn [putA set_anchors anchors] in Ha'.
+           pose proof (astepA_anchors _ _ _ _ _ _ _ EA2) as An.
+           rewrite An in Ha'. rewrite (nthN_updN_same _ _ _ _ _ Ha0) in Ha'. inversion Ha'; subst. exact K.
+        -- left. destruct (astepA_looked _ _ _ _ _ _ _ _ _ EA2) as [-> S0]. destruct W as [_ R].
+           split; [reflexivity|]. rewrite pri_prim. rewrite S0. reflexivity.
+      * cbn [pri tpc cm] in H. subst m. destruct W as [-> _].
+        cbn [pri tpc] in H. discriminate H.
+      * subst m. destruct W as [-> R]. left. split; [reflexivity|]. rewrite pri_prim.
+        cbn [pri tpc] in H. rewrite N.eqb_refl in H. cbn [holds] in H. inversion H; subst lm.
+        (* the pc that failed a data assertion held the shared lock *)
+        clear - EA2 R. 
+        destruct p; cbn [rdclass] in R; try discriminate R;
+          try match goal with c : lcx |- _ => destruct c; cbn [rdclass] in R; try discriminate R end;
+          try match goal with c : fcx |- _ => destruct c; cbn [rdctx] in R; try discriminate R end;
+          cbn [astepA] in EA2;
+          repeat match type of EA2 with
+                 | context [pstep ?x ?y ?z] => destruct (pstep x y z) as [[[? ?] ?] ?] eqn:?
+                 | context [match ?x with Ready _ => _ | _ => _ end] => destruct x eqn:?
+                 end;
+          unfold lcont, fc_entry, fl_head, lk_head, callL in EA2; cbn [keep] in EA2;
+          repeat match type of EA2 with
+                 | context [match ?m with MIdle => _ | _ => _ end] => destruct m
+                 | context [if ?c then _ else _] => destruct c eqn:?
+                 | context [match getS ?a ?b with _ => _ end] => destruct (getS a b) eqn:?
+                 | context [match sidx ?a ?b with _ => _ end] => destruct (sidx a b) eqn:?
+                 end;
+          inversion EA2; subst; reflexivity.
+    + inversion EA; subst; clear EA. inversion E; subst; clear E. cbn [cm tpc] in *. subst m. destruct W as [-> R].
+      left. rewrite Ha in Ha0. discriminate Ha0.
+  - (* transient activity: cm and the primary share do not change *)
+    left. destruct (astep sh g p) as [[sh1 r] evs1] eqn:EA.
+    destruct r as [p'|lm o| |lm]; inversion E; subst; clear E; cbn [cm tpc] in *; subst m;
+      (split; [reflexivity|]); cbn [pri tpc cm cm_lmode]; rewrite N.eqb_refl; reflexivity.
 Qed.
